@@ -70,6 +70,33 @@ def ingest(tag, prop, wt, needs):
     return meta
 
 
+def ingest_control(tag, prop, patchfile, what):
+    """a property-preserving change written by an independent sub-agent: the check must stay silent on it"""
+    sid = "%s-%s" % (prop, tag)
+    d = os.path.join(V, "seeded", sid)
+    os.makedirs(d, exist_ok=True)
+    shutil.copy(patchfile, os.path.join(d, "patch.diff"))
+    scratch = "/tmp/confirm-%s" % tag
+    sh("git -C /repo worktree remove --force %s" % scratch)
+    rc, out = sh("git -C /repo worktree add -q --detach %s HEAD" % scratch)
+    assert rc == 0, out
+    meta = {"id": sid, "property": prop, "kind": "control", "what": what,
+            "source": "independent sub-agent asked for behaviour-preserving refactorings",
+            "repo_head": sh("git -C /repo rev-parse --short HEAD")[1].strip()}
+    try:
+        env = {"PYTHONPATH": scratch, "PYTHONDONTWRITEBYTECODE": "1", "PYTHONWARNINGS": "ignore"}
+        rc, out = sh("git apply %s" % os.path.join(d, "patch.diff"), cwd=scratch)
+        meta["patch_applies_to_head"] = (rc == 0)
+        rct, outt = sh("%s -m pytest -q -p no:cacheprovider test" % PY, cwd=scratch, env=env)
+        meta["confirmed"] = {"tests_with_patch": outt.strip().splitlines()[-1] if outt.strip() else "", "tests_rc": rct}
+        meta["kept"] = bool(rc == 0 and rct == 0)
+        print("%s: applies=%s tests rc=%d (%s) -> %s" % (sid, rc == 0, rct, meta["confirmed"]["tests_with_patch"],
+                                                      "KEPT" if meta["kept"] else "REJECTED"))
+    finally:
+        sh("git -C /repo worktree remove --force %s" % scratch)
+    json.dump(meta, open(os.path.join(d, "meta.json"), "w"), indent=1)
+
+
 def run(ids, tier="quick", extra=""):
     base = os.path.join(V, "seeded")
     rows = []
@@ -115,17 +142,28 @@ def run(ids, tier="quick", extra=""):
                                                   "detected": rc == 1, "first_violation": (first[0][:400] if first else ""),
                                                   "wall_s": round(time.time() - t0, 1)}
         json.dump(meta, open(mp, "w"), indent=1)
-        rows.append((sid, rc))
-        print("%-28s rc=%d %s %.0fs %s" % (sid, rc, "DETECTED" if rc == 1 else "MISSED" if rc == 0 else "HARNESS", time.time() - t0,
-                                           first[0][:220] if first else ""))
+        ctl = meta.get("kind") == "control"
+        rows.append((sid, rc, ctl))
+        if ctl:
+            meta["detection"][tier]["silent"] = (rc == 0)
+            json.dump(meta, open(mp, "w"), indent=1)
+            print("%-28s rc=%d %s %.0fs %s" % (sid, rc, "SILENT (ok)" if rc == 0 else "FALSE-ALARM" if rc == 1 else "HARNESS",
+                                               time.time() - t0, first[0][:300] if first else ""))
+        else:
+            print("%-28s rc=%d %s %.0fs %s" % (sid, rc, "DETECTED" if rc == 1 else "MISSED" if rc == 0 else "HARNESS",
+                                               time.time() - t0, first[0][:220] if first else ""))
         sys.stdout.flush()
     shutil.rmtree("/tmp/seeded-replays", ignore_errors=True)
-    print("detected %d / %d" % (sum(1 for r in rows if r[1] == 1), len(rows)))
+    print("detected %d / %d ; controls silent %d / %d" % (
+        sum(1 for r in rows if r[1] == 1 and not r[2]), sum(1 for r in rows if not r[2]),
+        sum(1 for r in rows if r[1] == 0 and r[2]), sum(1 for r in rows if r[2])))
 
 
 if __name__ == "__main__":
     if sys.argv[1] == "ingest":
         ingest(*sys.argv[2:6])
+    elif sys.argv[1] == "ingest-control":
+        ingest_control(*sys.argv[2:6])
     elif sys.argv[1] == "run":
         args = sys.argv[2:]
         tier = "quick"
